@@ -91,21 +91,21 @@ theorem lemire_truncated (F : FTy) (hF : IsLemireFloat F) (q : Int) (w : Nat) (n
 /-! ## the capacity guard of `negative_digit_comp` from the closeness of the estimate -/
 
 set_option exponentiation.threshold 5000 in
-theorem pow_caps : 2 * 10 ^ 770 < 2 ^ 3968 ∧ 2 ^ 55 * 5 ^ 1093 < 2 ^ 3968 ∧ 10 ^ 1093 < 2 ^ 3968 :=
+theorem pow_caps : 4 * 10 ^ 770 < 2 ^ 3968 ∧ 2 ^ 55 * 5 ^ 1130 < 2 ^ 3968 ∧ 10 ^ 1130 < 2 ^ 3968 :=
   ⟨by decide +kernel, by decide +kernel, by decide +kernel⟩
 
 /-- both big integers of `negative_digit_comp` are about as large as the digits (`M < 10^770`) or as `b + h` scaled
-(`< 2^55·5^j`): `theor ≤ 2·M` when it is the one shifted left, `real < (2Q+4)·5^j` when that one is — because the estimate
-is a `40`-estimate of `M / 10^j` -/
-theorem neg_guard_bounds (Q K Sf mant M j L : Nat) (be : Int) (hbe : be = (K : Int) + j - (L + 1))
-    (hQ : Q = mant / 2 ^ Sf) (hS40 : 40 ≤ 2 ^ Sf) (hQ0 : Q = 0 → K = 0) (hQ53 : Q < 2 ^ 53)
-    (hj : j ≤ 1093) (hM : M < 10 ^ 770)
-    (lo : mant * 2 ^ K * 10 ^ j ≤ M * 2 ^ L * 2 ^ Sf) (hi : M * 2 ^ L * 2 ^ Sf < (mant + 40) * 2 ^ K * 10 ^ j) :
+(`< 2^55·5^j`): `theor ≤ 4·M` when it is the one shifted left, `real < (2Q+4)·5^j` when that one is — because the estimate
+is close to `M / 10^j` (`lo`: at most twice the value; `hi`: less than `ch ≤ 2^Sf` units below it) -/
+theorem neg_guard_bounds (Q K Sf mant M j L ch : Nat) (be : Int) (hbe : be = (K : Int) + j - (L + 1))
+    (hQ : Q = mant / 2 ^ Sf) (hS40 : ch ≤ 2 ^ Sf) (hQ0 : Q = 0 → K = 0) (hQ53 : Q < 2 ^ 53)
+    (hj : j ≤ 1130) (hM : M < 10 ^ 770)
+    (lo : mant * 2 ^ K * 10 ^ j ≤ 2 * (M * 2 ^ L * 2 ^ Sf)) (hi : M * 2 ^ L * 2 ^ Sf < (mant + ch) * 2 ^ K * 10 ^ j) :
     (2 * Q + 1) * 5 ^ j * 2 ^ be.toNat < 2 ^ 3968 ∧ M * 2 ^ (-be).toNat < 2 ^ 3968 := by
   obtain ⟨c1, c2, c3⟩ := pow_caps
   have h10 : (10 : Nat) ^ j = 5 ^ j * 2 ^ j := by rw [← Nat.mul_pow]
-  have h5j : 5 ^ j ≤ 5 ^ 1093 := Nat.pow_le_pow_right (by decide) hj
-  have h10j : 10 ^ j ≤ 10 ^ 1093 := Nat.pow_le_pow_right (by decide) hj
+  have h5j : 5 ^ j ≤ 5 ^ 1130 := Nat.pow_le_pow_right (by decide) hj
+  have h10j : 10 ^ j ≤ 10 ^ 1130 := Nat.pow_le_pow_right (by decide) hj
   have hSpos := Nat.two_pow_pos Sf
   have hQm : Q * 2 ^ Sf ≤ mant := by rw [hQ]; exact Nat.div_mul_le_self _ _
   have hmQ : mant < 2 ^ Sf * (Q + 1) := by rw [hQ]; exact Nat.lt_mul_div_succ mant hSpos
@@ -125,23 +125,25 @@ theorem neg_guard_bounds (Q K Sf mant M j L : Nat) (be : Int) (hbe : be = (K : I
         _ ≤ 5 ^ j * 2 ^ j := Nat.mul_le_mul_left _ this
         _ = 10 ^ j := h10.symm
         _ < 2 ^ 3968 := by omega
-    · have k1 : Q * 2 ^ K * 10 ^ j ≤ M * 2 ^ L := by
+    · have k1 : Q * 2 ^ K * 10 ^ j ≤ 2 * (M * 2 ^ L) := by
         apply Nat.le_of_mul_le_mul_right _ hSpos
         calc Q * 2 ^ K * 10 ^ j * 2 ^ Sf = (Q * 2 ^ Sf) * 2 ^ K * 10 ^ j := by ring
           _ ≤ mant * 2 ^ K * 10 ^ j := Nat.mul_le_mul_right _ (Nat.mul_le_mul_right _ hQm)
-          _ ≤ M * 2 ^ L * 2 ^ Sf := lo
-      have k2 : 2 * (Q * 5 ^ j * 2 ^ n) ≤ M := by
-        apply Nat.le_of_mul_le_mul_right _ (Nat.two_pow_pos L)
-        calc 2 * (Q * 5 ^ j * 2 ^ n) * 2 ^ L = Q * 5 ^ j * 2 ^ (n + L + 1) := by
-              rw [Nat.pow_add, Nat.pow_add]; ring
+          _ ≤ 2 * (M * 2 ^ L * 2 ^ Sf) := lo
+          _ = 2 * (M * 2 ^ L) * 2 ^ Sf := by ring
+      have k2 : Q * 5 ^ j * 2 ^ n ≤ M := by
+        apply Nat.le_of_mul_le_mul_right _ (Nat.two_pow_pos (L + 1))
+        calc Q * 5 ^ j * 2 ^ n * 2 ^ (L + 1) = Q * 5 ^ j * 2 ^ (n + L + 1) := by
+              rw [Nat.pow_add, Nat.pow_add, Nat.pow_add]; ring
           _ = Q * 5 ^ j * 2 ^ (K + j) := by rw [hKj]
           _ = Q * 2 ^ K * 10 ^ j := by rw [h10, Nat.pow_add]; ring
-          _ ≤ M * 2 ^ L := k1
-      have k3 : (2 * Q + 1) * 5 ^ j * 2 ^ n ≤ 2 * (2 * (Q * 5 ^ j * 2 ^ n)) := by
+          _ ≤ 2 * (M * 2 ^ L) := k1
+          _ = M * 2 ^ (L + 1) := by rw [Nat.pow_succ]; ring
+      have k3 : (2 * Q + 1) * 5 ^ j * 2 ^ n ≤ 4 * (Q * 5 ^ j * 2 ^ n) := by
         have : 2 * Q + 1 ≤ 4 * Q := by omega
         calc (2 * Q + 1) * 5 ^ j * 2 ^ n = (2 * Q + 1) * (5 ^ j * 2 ^ n) := by ring
           _ ≤ 4 * Q * (5 ^ j * 2 ^ n) := Nat.mul_le_mul_right _ this
-          _ = 2 * (2 * (Q * 5 ^ j * 2 ^ n)) := by ring
+          _ = 4 * (Q * 5 ^ j * 2 ^ n) := by ring
       omega
   · obtain ⟨n, hn⟩ : ∃ n : Nat, -be = (n : Int) := ⟨(-be).toNat, by omega⟩
     have e1 : be.toNat = 0 := by omega
@@ -149,11 +151,11 @@ theorem neg_guard_bounds (Q K Sf mant M j L : Nat) (be : Int) (hbe : be = (K : I
     rw [e1, e2, Nat.pow_zero, Nat.mul_one]
     have hKj : n + (K + j) = L + 1 := by omega
     constructor
-    · calc (2 * Q + 1) * 5 ^ j ≤ 2 ^ 55 * 5 ^ 1093 := Nat.mul_le_mul (by omega) h5j
+    · calc (2 * Q + 1) * 5 ^ j ≤ 2 ^ 55 * 5 ^ 1130 := Nat.mul_le_mul (by omega) h5j
         _ < 2 ^ 3968 := c2
     · have k1 : M * 2 ^ L < (Q + 2) * 2 ^ K * 10 ^ j := by
         apply Nat.lt_of_mul_lt_mul_right (a := 2 ^ Sf)
-        calc M * 2 ^ L * 2 ^ Sf < (mant + 40) * 2 ^ K * 10 ^ j := hi
+        calc M * 2 ^ L * 2 ^ Sf < (mant + ch) * 2 ^ K * 10 ^ j := hi
           _ ≤ (2 ^ Sf * (Q + 1) + 2 ^ Sf) * 2 ^ K * 10 ^ j :=
               Nat.mul_le_mul_right _ (Nat.mul_le_mul_right _ (by omega))
           _ = (Q + 2) * 2 ^ K * 10 ^ j * 2 ^ Sf := by ring
@@ -164,14 +166,14 @@ theorem neg_guard_bounds (Q K Sf mant M j L : Nat) (be : Int) (hbe : be = (K : I
           _ < 2 * ((Q + 2) * 2 ^ K * 10 ^ j) := Nat.mul_lt_mul_of_pos_left k1 (by decide)
           _ = (2 * Q + 4) * 5 ^ j * 2 ^ (K + j) := by rw [h10, Nat.pow_add]; ring
       calc M * 2 ^ n < (2 * Q + 4) * 5 ^ j := k2
-        _ ≤ 2 ^ 55 * 5 ^ 1093 := Nat.mul_le_mul (by omega) h5j
+        _ ≤ 2 ^ 55 * 5 ^ 1130 := Nat.mul_le_mul (by omega) h5j
         _ < 2 ^ 3968 := c2
 
-/-- the same when the estimate rounds down to `+∞` (`K ≥ 2^eb − 2 = 2·bf`): the value is at least `2^(bf+1)`, so
-`theor = bh(+∞)·10^j`-scaled is at most `2·M` -/
+/-- the same when the estimate rounds down to `+∞` (`K ≥ 2^eb − 2 = 2·bf`): the value is at least `2^bf`, so
+`theor = bh(+∞)·10^j`-scaled is at most `4·M` -/
 theorem neg_guard_inf_bounds (p bf K mant M j L Sf : Nat) (hp : 2 ≤ p) (hpb : p + 1 ≤ bf) (hK : 2 * bf ≤ K)
     (hmant : 2 ^ Sf * 2 ^ (p - 1) ≤ mant) (hL : L = bf + (p - 1) - 1) (hM : M < 10 ^ 770)
-    (lo : mant * 2 ^ K * 10 ^ j ≤ M * 2 ^ L * 2 ^ Sf) :
+    (lo : mant * 2 ^ K * 10 ^ j ≤ 2 * (M * 2 ^ L * 2 ^ Sf)) :
     (2 * 2 ^ (p - 1) + 1) * 5 ^ j * 2 ^ (((2 * bf : Nat) : Int) - ((bf + (p - 1) : Nat) : Int) + j).toNat < 2 ^ 3968 ∧
     M * 2 ^ (-(((2 * bf : Nat) : Int) - ((bf + (p - 1) : Nat) : Int) + j)).toNat < 2 ^ 3968 := by
   obtain ⟨c1, _, _⟩ := pow_caps
@@ -182,17 +184,19 @@ theorem neg_guard_inf_bounds (p bf K mant M j L Sf : Nat) (hp : 2 ≤ p) (hpb : 
   refine ⟨?_, by omega⟩
   have hSpos := Nat.two_pow_pos Sf
   have k0 : 2 ^ (2 * bf) ≤ 2 ^ K := Nat.pow_le_pow_right (by decide) hK
-  have k1 : 2 ^ (p - 1) * 2 ^ (2 * bf) * 10 ^ j ≤ M * 2 ^ L := by
+  have k1 : 2 ^ (p - 1) * 2 ^ (2 * bf) * 10 ^ j ≤ 2 * (M * 2 ^ L) := by
     apply Nat.le_of_mul_le_mul_right _ hSpos
     calc 2 ^ (p - 1) * 2 ^ (2 * bf) * 10 ^ j * 2 ^ Sf = (2 ^ Sf * 2 ^ (p - 1)) * 2 ^ (2 * bf) * 10 ^ j := by ring
       _ ≤ mant * 2 ^ K * 10 ^ j := Nat.mul_le_mul_right _ (Nat.mul_le_mul hmant k0)
-      _ ≤ M * 2 ^ L * 2 ^ Sf := lo
-  have k2 : 2 ^ (bf + 1) * 10 ^ j ≤ M := by
+      _ ≤ 2 * (M * 2 ^ L * 2 ^ Sf) := lo
+      _ = 2 * (M * 2 ^ L) * 2 ^ Sf := by ring
+  have k2 : 2 ^ (bf + 1) * 10 ^ j ≤ 2 * M := by
     apply Nat.le_of_mul_le_mul_right _ (Nat.two_pow_pos L)
     calc 2 ^ (bf + 1) * 10 ^ j * 2 ^ L = 2 ^ (bf + 1 + L) * 10 ^ j := by rw [Nat.pow_add]; ring
       _ = 2 ^ (p - 1 + 2 * bf) * 10 ^ j := by congr 2; omega
       _ = 2 ^ (p - 1) * 2 ^ (2 * bf) * 10 ^ j := by rw [Nat.pow_add]
-      _ ≤ M * 2 ^ L := k1
+      _ ≤ 2 * (M * 2 ^ L) := k1
+      _ = 2 * M * 2 ^ L := by ring
   have k3 : 2 * 2 ^ (p - 1) + 1 ≤ 2 ^ (p + 1) := by
     have : 2 ^ (p + 1) = 4 * 2 ^ (p - 1) := by
       rw [show p + 1 = (p - 1) + 2 by omega, Nat.pow_add]; ring
@@ -204,7 +208,7 @@ theorem neg_guard_inf_bounds (p bf K mant M j L Sf : Nat) (hp : 2 ≤ p) (hpb : 
     _ = 2 ^ (p + 1 + (bf - (p - 1))) * 10 ^ j := by rw [h10, Nat.pow_add, Nat.pow_add]; ring
     _ = 2 * (2 ^ (bf + 1) * 10 ^ j) := by
         rw [show p + 1 + (bf - (p - 1)) = (bf + 1) + 1 by omega, Nat.pow_succ]; ring
-    _ ≤ 2 * M := Nat.mul_le_mul_left _ k2
+    _ ≤ 2 * (2 * M) := Nat.mul_le_mul_left _ k2
     _ < 2 ^ 3968 := by omega
 
 /-! ## the value of all the digits lies in `[w, w + 1)·10^q` -/
@@ -462,8 +466,8 @@ theorem slowDomain_of_truncated {F : FTy} (hF : IsLemireFloat F) {p eb : Nat} (l
         generalize hK : (fp.exp - invalidFp + 64 - ↑p - 1).toNat = K at *
         generalize hQ : fp.mant / 2 ^ shiftOf p (fp.exp - invalidFp) = Q at *
         obtain ⟨g1, g2⟩ := neg_guard_bounds Q K (shiftOf p (fp.exp - invalidFp)) fp.mant M j (L F.fmt)
-          ((K : Int) - F.C.exponentBias - (n.exponent + ↑T + 1 - (cnt : Int))) (by omega) hQ.symm hS40 hQ0 hQ53
-          (by omega) hM769 lo hi
+          40 ((K : Int) - F.C.exponentBias - (n.exponent + ↑T + 1 - (cnt : Int))) (by omega) hQ.symm hS40 hQ0 hQ53
+          (by omega) hM769 (by omega) hi
         unfold C01Slow.NegGuard
         simp only [hK, hQ, hj]
         exact ⟨Nat.lt_of_lt_of_le g1 hcapp, Nat.lt_of_lt_of_le g2 hcapp⟩
@@ -515,7 +519,7 @@ theorem slowDomain_of_truncated {F : FTy} (hF : IsLemireFloat F) {p eb : Nat} (l
         obtain ⟨hSf, _, hmant⟩ := qa hKpos
         generalize hj : (-(n.exponent + ↑T + 1 - (cnt : Int))).toNat = j at *
         obtain ⟨g1, g2⟩ := neg_guard_inf_bounds p (2 ^ (eb - 1) - 1) K fp.mant M j (L F.fmt)
-          (shiftOf p (fp.exp - invalidFp)) hp lay.hpb hK2 hmant (LexVerif.Proof.BinaryCorrect.L_eq lay) hM769 lo
+          (shiftOf p (fp.exp - invalidFp)) hp lay.hpb hK2 hmant (LexVerif.Proof.BinaryCorrect.L_eq lay) hM769 (by omega)
         unfold C01Slow.NegGuardInf
         rw [hfe, lay.bias]
         have e1 : ((2 ^ eb - 2 : Nat) : Int) - ((2 ^ (eb - 1) - 1 + (p - 1) : Nat) : Int) -
